@@ -293,11 +293,13 @@ var (
 	kindsByCmd = map[uint32][]int{}
 	genericIdx []int // kinds that may follow any command
 	issueCmds  []uint32
+	kindByName = map[string]kind{}
 )
 
 func init() {
 	seen := map[uint32]bool{}
 	for i, k := range kinds {
+		kindByName[k.Name] = k
 		switch k.Cmd {
 		case agent.COMMAND_OUTPUT, agent.BEACON_OUTPUT, agent.COMMAND_ERROR, agent.DEMON_INFO, agent.COMMAND_PACKAGE_DROPPED, agent.COMMAND_KILL_DATE:
 			genericIdx = append(genericIdx, i)
